@@ -1,14 +1,16 @@
 #!/bin/bash
-# usage: seed_confirm.sh <Cnn> <demo command...>     e.g.  seed_confirm.sh C03 cargo run --release --offline
-# Confirms in the sub-agent's scratch worktree: the changed tree passes the pinned suite, the demonstration fails with
-# the change and passes without it.  Prints one summary line.
-id=$1; shift
-wt=/tmp/seed/$id; out=/tmp/seed/$id.out
+# usage: seed_confirm.sh <scratch-root> <Cnn> <demo command...>   e.g.  seed_confirm.sh /tmp/seed2 C03 cargo test --offline
+# Confirms in the sub-agent's scratch worktree (never in /repo): the worktree is reset to HEAD, patch.diff is applied,
+# the pinned suite must pass, the demonstration must fail; the patch is reversed and the demonstration must pass; the
+# patch is applied again.  No git stash (refs/stash is shared between worktrees).  Prints one summary line.
+root=$1; id=$2; shift 2
+wt=$root/$id; out=$root/$id.out
 cd $wt || exit 2
+git checkout -q -- . && git apply $out/patch.diff || { echo "$id patch does not apply to HEAD"; exit 2; }
 suite=$(cargo test --workspace --offline 2>&1 | grep -E "^test result" | awk '{p+=$4; f+=$6} END{print p" passed "f" failed"}')
 cd $out/demo
-"$@" >/tmp/seed/$id.with.log 2>&1; with=$?
-git -C $wt stash -q
-"$@" >/tmp/seed/$id.without.log 2>&1; without=$?
-git -C $wt stash pop -q
+"$@" >$out/with.log 2>&1; with=$?
+git -C $wt apply -R $out/patch.diff
+"$@" >$out/without.log 2>&1; without=$?
+git -C $wt apply $out/patch.diff
 echo "$id suite[$suite] demo-with-change=exit$with demo-without=exit$without"
